@@ -113,6 +113,30 @@ func enterFree() func() {
 }
 
 var (
+	prefMu   sync.Mutex
+	prefetch = map[string]chan *fw.Trace{}
+)
+
+func startEarly(env *fw.Env, data []byte) {
+	var b behaviour
+	if json.Unmarshal(data, &b) != nil || !b.Timed {
+		return
+	}
+	ch := make(chan *fw.Trace, 1)
+	prefMu.Lock()
+	prefetch[string(data)] = ch
+	prefMu.Unlock()
+	go func() {
+		defer func() {
+			if r := recover(); r != nil {
+				ch <- &fw.Trace{Status: fw.DriverError, Note: fmt.Sprintf("driver panic: %v", r)}
+			}
+		}()
+		ch <- driveNode(env, &b)
+	}()
+}
+
+var (
 	timeMu  sync.Mutex
 	timeBy  = map[string]time.Duration{}
 	countBy = map[string]int{}
@@ -132,6 +156,15 @@ func drive(env *fw.Env, fb fw.Behaviour) *fw.Trace {
 			countBy[k]++
 			timeMu.Unlock()
 		}()
+	}
+	// timed allocator behaviours were started when they were selected (extraBeh): they mostly wait
+	// (30 s heartbeats, 90 s TTL, up to 4.5 min) and so overlap with the whole drive phase
+	prefMu.Lock()
+	ch := prefetch[string(fb.Data)]
+	delete(prefetch, string(fb.Data))
+	prefMu.Unlock()
+	if ch != nil {
+		return <-ch
 	}
 	switch b.Kind {
 	case "gen":
@@ -492,11 +525,13 @@ func extraBeh(env *fw.Env) []json.RawMessage {
 		}
 		taken[k]++
 		out = append(out, fw.MustJSON(b))
+		startEarly(env, out[len(out)-1])
 		if b.Cat == "claim-after-3-renewals" && taken[k] == 1 {
 			// the same history on the redis-mode wiring (local cache = shared store)
 			c := b
 			c.Store = "same"
 			out = append(out, fw.MustJSON(c))
+			startEarly(env, out[len(out)-1])
 		}
 	}
 	stash = nil
@@ -515,14 +550,14 @@ func maxBehSrc(env *fw.Env, src string) int {
 		if q {
 			return 6000
 		}
-		return 18000
+		return 12000
 	case strings.HasPrefix(src, "gen:setnx"):
 		return 12000
 	case strings.HasPrefix(src, "gen:fallback"):
 		if q {
 			return 2500
 		}
-		return 6000
+		return 4000
 	}
 	return 0
 }
